@@ -297,3 +297,35 @@ func H_C05_lndHandover() {
 		}
 	}
 }
+
+// vLndCsv: real lnd.TxWatcher.AddWaitForCsvTx: a Conf event (requested with 144
+// confirmations, lnd's maximum) and then block epochs counted by the watcher itself.  The CSV
+// callback is issued at most once, only after a Conf event at height hc and a block epoch at
+// height b with (b-hc+1) mod 2^32 >= 1008; with epochs at or above hc (contract variant)
+// that is b-hc+1 >= 1008 in unbounded arithmetic.
+// Bounds: <= 1 Reorg event, <= 3 block epochs, one registration.
+func vLndCsv(epochContract bool) {
+	l := &vLnd{epochAssume: epochContract}
+	t := vWatcher(l, 3, 1008)
+	t.AddWaitForCsvTx("swap-1", vTxA, zzverif.U32("vout"), zzverif.U32("hint"), zzverif.U32("csv"), zzverif.Bytes("script", 4))
+	if !vSettle(t) {
+		return
+	}
+	zzverif.Assert(len(l.confReqs) == 1 && l.confReqs[0].NumConfs == 144, "C20.lnd_csv_requests_144_confs")
+	zzverif.Assert(l.confCalls+l.confErrCalls == 0 && l.csvCalls <= 1, "C20.lnd_csv_at_most_one_callback")
+	if l.csvCalls == 1 {
+		b, hc := l.lastEpoch, l.confHeight
+		zzverif.Assert(l.confSeen && len(l.epochReqs) == 1 && l.epochReqs[0].Height == hc && l.epochs >= 1, "C20.lnd_csv_needs_conf_event_and_epoch")
+		zzverif.Assert(b-hc+1 >= 1008, "C20.lnd_csv_depth_mod_2_32")
+		zzverif.Assert(int64(b)-int64(hc)+1 >= 1008, "C20.lnd_csv_depth")
+	}
+	_, still := t.waitForCsvWatchers["swap-1"]
+	zzverif.Assert(!still, "C20.lnd_csv_deregistered_when_done")
+}
+
+// H_C20_lndCsv: block epochs obey the registration contract (height >= the hinted height).
+func H_C20_lndCsv() { vLndCsv(true) }
+
+// H_C20_T_lndCsv_anyEpoch: block epochs with arbitrary heights (deep reorganisation / a
+// misbehaving lnd): exposes that the depth is computed in wrapping uint32 arithmetic.
+func H_C20_T_lndCsv_anyEpoch() { vLndCsv(false) }
